@@ -1,6 +1,7 @@
 // C17 driver: CRC routines on exactly sized heap blocks at every alignment.
 #include "common/vlog.h"
 #include <igris/util/crc.h>
+#include <sys/mman.h>
 extern "C" uint8_t igris_crc8_table(const uint8_t *addr, uint8_t len, uint8_t crc_init);
 using namespace vlog;
 static unsigned long long call(const std::string &fn, const unsigned char *p, size_t n, unsigned long long seed) {
@@ -19,6 +20,19 @@ struct Blk { unsigned char *base, *p; Blk(const std::vector<unsigned char> &d, i
 int main(int argc, char **argv) {
     return run(argc, argv, [&](const std::vector<std::string> &t) {
         if (t[0] == "R") { Ev e("Reset"); e.end(); return; }
+        if (t[0] == "CrcBig") {   // CrcBig seed(list LE) length head tail : CRC-32 of a message of `length` bytes (up to 2^32-1) that is zero except for its
+            // first |head| and last |tail| bytes; it lives in lazily committed address space and ends exactly at the end of the mapping
+            auto sd = blist(t[1]); unsigned long long len = strtoull(t[2].c_str(), 0, 10); auto hd = blist(t[3]), tl = blist(t[4]);
+            unsigned long long seed = 0; for (size_t i = 0; i < sd.size(); ++i) seed |= (unsigned long long)sd[i] << (8 * i);
+            size_t span = ((len + 4095) / 4096 + 1) * 4096; unsigned char *base = (unsigned char *)mmap(nullptr, span, PROT_READ | PROT_WRITE, MAP_PRIVATE | MAP_ANONYMOUS | MAP_NORESERVE, -1, 0);
+            if (base == (unsigned char *)MAP_FAILED) { perror("mmap"); exit(3); }
+            unsigned char *msg = base + (span - len); memcpy(msg, hd.data(), hd.size()); memcpy(msg + len - tl.size(), tl.data(), tl.size());
+            unsigned keep = g_op_timeout; if (keep) { g_op_timeout = 900; watchdog(true); g_op_timeout = keep; }       // gigabytes take a while
+            unsigned long long r = igris_crc32(msg, (uint32_t)len, (uint32_t)seed);
+            munmap(base, span);
+            unsigned long long nz = len - hd.size() - tl.size();
+            Ev e("CrcBig"); e.bytes("seed", sd.data(), sd.size()).str("len", t[2].c_str()).bytes("head", hd.data(), hd.size()).bytes("tail", tl.data(), tl.size()).i("nzh", (long long)(nz >> 16)).i("nzl", (long long)(nz & 0xffff)).le("ret", r, 4); e.end();
+            return; }
         // Crc fn seed(list LE) data align cut
         const std::string &fn = t[1]; auto sd = blist(t[2]); auto d = blist(t[3]); int off = num(t[4]); long cut = num(t[5]);
         unsigned long long seed = 0; for (size_t i = 0; i < sd.size(); ++i) seed |= (unsigned long long)sd[i] << (8 * i);
